@@ -444,6 +444,39 @@ func (w *W) c15Program(k int) {
 			if ferr != nil {
 				continue
 			}
+			// one Serializer serves the whole run of this worker (tens of megabytes of distinct strings
+			// and thousands of calls go through it): what it writes for this document reads back as
+			// what a new Serializer writes
+			{
+				if c15LongSer == nil {
+					c15LongSer = simdjson.NewSerializer()
+				}
+				c15LongSer.CompressMode(mode)
+				var lout *simdjson.ParsedJson
+				var lerr error
+				lp := walk.Guard(func() error {
+					lout, lerr = simdjson.NewSerializer().Deserialize(c15LongSer.Serialize(nil, *src), nil)
+					return nil
+				})
+				c15LongCalls++
+				w.Eval(1)
+				bad := ""
+				if lp != nil || lerr != nil {
+					bad = fmt.Sprintf("%v %v", lp, lerr)
+				} else {
+					la, lea := walk.Into(lout)
+					lb, leb := walk.Into(fout)
+					if lea != nil || leb != nil || cmpRoots(lb, la, nil, false) != "" {
+						bad = fmt.Sprintf("%v %v %s", lea, leb, cmpRoots(lb, la, nil, false))
+					}
+				}
+				if bad != "" {
+					w.Violation("C15/long-lived-serializer", fmt.Sprintf("a Serializer that has served %d earlier Serialize calls of this worker fails or writes another document than a new one: %s; history=%v", c15LongCalls-1, bad, lastN(trace, 4)), cs)
+					c15LongSer = nil
+					return
+				}
+				w.Max("max_calls_on_one_long_lived_serializer", int64(c15LongCalls))
+			}
 			a, ea := walk.Into(out)
 			b, eb := walk.Into(fout)
 			if ea != nil || eb != nil || cmpRoots(b, a, nil, false) != "" {
@@ -547,6 +580,50 @@ func (w *W) c15SerializerSizes(k int) {
 			}
 		}
 	}
+	// and the worker's long-lived Serializer gets about 2 MiB of strings it has never seen before
+	// (cumulative volume over the run: tens of megabytes, beyond any internal table or offset width
+	// that a single document never reaches)
+	{
+		var b bytes.Buffer
+		b.WriteByte('[')
+		for i := 0; i < 40000; i++ {
+			if i > 0 {
+				b.WriteByte(',')
+			}
+			fmt.Fprintf(&b, `"%016x-%016x-%08x"`, r.Uint64(), uint64(hseed), i)
+		}
+		b.WriteByte(']')
+		pj, err := simdjson.Parse(b.Bytes(), nil)
+		if err == nil {
+			if c15LongSer == nil {
+				c15LongSer = simdjson.NewSerializer()
+			}
+			c15LongSer.CompressMode(compModes[k%4])
+			var lout *simdjson.ParsedJson
+			var lerr error
+			lp := walk.Guard(func() error {
+				lout, lerr = simdjson.NewSerializer().Deserialize(c15LongSer.Serialize(nil, *pj), nil)
+				return nil
+			})
+			c15LongCalls++
+			c15LongBytes += int64(b.Len())
+			w.Eval(1)
+			bad := ""
+			if lp != nil || lerr != nil {
+				bad = fmt.Sprintf("%v %v", lp, lerr)
+			} else {
+				want, _ := walk.Into(pj)
+				got, e := walk.Into(lout)
+				bad = cmpRoots(want, got, e, false)
+			}
+			if bad != "" {
+				w.Violation("C15/long-lived-serializer/fresh-strings", fmt.Sprintf("a Serializer that has served %d earlier calls (%d bytes of never-seen strings in these histories) fails or writes another document than it was given: %s", c15LongCalls-1, c15LongBytes, bad), cs)
+				c15LongSer = nil
+				return
+			}
+			w.Max("max_bytes_of_fresh_strings_through_one_serializer", c15LongBytes)
+		}
+	}
 	w.Count("serializer_size_histories", 1)
 	w.Nontrivial(uint64(hseed))
 }
@@ -574,6 +651,12 @@ func c15ExportedSame(a, b *simdjson.ParsedJson) string {
 	}
 	return ""
 }
+
+var (
+	c15LongSer   *simdjson.Serializer
+	c15LongCalls int
+	c15LongBytes int64
+)
 
 // c15SerPanicBudget: how many recovered Serialize panics a worker process still provokes.
 var c15SerPanicBudget = 60
